@@ -87,4 +87,34 @@ example : eval 10 [] (.prim "+" (.int 1) (.int 2)) = .ok (.int 3) := by rfl
 example : eval 10 [] (.app (.error "f") [.prim "/" (.int 1) (.int 0)]) = .error (.user "f") := by rfl
 example : eval 10 [] (.app (.lam ["x"] (.var "x")) [.prim "/" (.int 1) (.int 0)]) = .error .arith := by rfl
 
+
+/-! ### Strictness laws checked by the wave-2 family (unused bindings whose right-hand side contains a call) -/
+
+/-- Strictness of `let`: a failing right-hand side makes the whole `let` fail with that failure,
+    whatever the pattern binds and whether or not the body uses it — an unused binding is still
+    evaluated (the law the C01 family "binding whose right-hand side contains a call" checks on
+    the real pipeline with optimisation off AND on). -/
+theorem let_rhs_failure_propagates (n : Nat) (env : Env) (p : Pat) (e₁ e₂ : Expr) (err : Err)
+    (h : eval n env e₁ = .error err) : eval (n + 1) env (.let_ p e₁ e₂) = .error err := by
+  simp [eval, h]
+
+/-- The failure of a call is the failure of the callee's body: it cannot be dropped by looking
+    at the call site only. -/
+theorem call_failure_is_callee_failure (n : Nat) (params : List String) (body : Expr) (cenv : Env)
+    (xs : List Val) (err : Err) (hx : xs ≠ []) (hl : params.length ≤ xs.length)
+    (h : eval n (bindParams params (xs.take params.length) cenv) body = .error err) :
+    apply (n + 1) (.clos params body cenv) xs = .error err := by
+  cases xs with
+  | nil => exact absurd rfl hx
+  | cons x xs =>
+    simp only [apply]
+    have hl' : params.length ≤ xs.length + 1 := by simpa using hl
+    simp [hl', h]
+
+example : eval 10 [] (.let_ .wild (.app (.lam ["x"] (.error "boom")) [.int 1]) (.int 7))
+    = .error (.user "boom") := by rfl
+example : eval 10 [] (.let_ (.var "u") (.let_ (.var "t")
+    (.app (.lam ["x"] (.prim "/" (.var "x") (.int 0))) [.int 1]) (.int 2)) (.int 7))
+    = .error .arith := by rfl
+
 end GluonModel.Props.C01
